@@ -63,7 +63,11 @@ def main():
                      "cargo test --offline -p gc-arena-derive 2>&1 | grep 'test result'", scratch, env)
         suite_ok = "39 passed; 0 failed" in o2 and "FAILED" not in o2
         meta["ran"].append({"cmd": "cargo test --offline --test tests / --doc (with patch)", "passes": suite_ok, "tail": o2[-600:]})
-        meta["confirmed"] = bool(base_ok and demo_fails and suite_ok and meta["patch_applies"])
+        # a "the compiler now accepts the escape" demonstration: rejected on the unchanged tree, compiles (and its
+        # assertions about the escaped handle hold) with the change
+        accepted_escape = (not meta["demo_compiles_on_unchanged_tree"]) and "test result: ok" in o1
+        meta["demonstration"] = "compiler-acceptance" if (accepted_escape and not demo_fails) else "failing-test"
+        meta["confirmed"] = bool(base_ok and (demo_fails or accepted_escape) and suite_ok and meta["patch_applies"])
         # run the checks against the patched scratch tree
         os.remove(os.path.join(scratch, "tests", "seeded_demo.rs"))
         ev = tempfile.mkdtemp(prefix="gcv-ev.", dir="/var/tmp")
